@@ -1041,6 +1041,39 @@ func ruleRetryBook(c *Ctx, r *Reporter) {
 			r.checkP([]string{"C16"}, !observed, fmt.Sprintf("reconciler.(incremental).commitStatus|the low watermark of a failed update is the revision of the change#%d", i+1), c.posStr(instrPos(call)), "the origin revision does not come from the observed version's revision", "the origin revision recorded for a failed update is the revision of the object version the reconciler observed; with several reconcilers on one object (StatusSet) the other reconciler's status write gives the object a newer revision before this one sees it, so the reported retry low watermark lies past the user's change: a caller waiting until revision and low watermark are both past its change is told it succeeded while the object is in Error awaiting retry")
 		}
 	}
+	// a failed item stays in the by-revision heap (the low watermark) until it is forgotten: only Clear
+	// removes it, LowWatermark may drop entries that Clear left stale; Pop takes it from the time heap only
+	// (the item is re-added by commitStatus after the watermark of the round has been read)
+	{
+		allowed := map[string]bool{"reconciler.(retries).Clear": true, "reconciler.(retries).LowWatermark": true}
+		n := 0
+		for _, fn := range c.Funcs {
+			if fn.Package() == nil || shortPkg(fn.Package().Pkg.Path()) != "reconciler" {
+				continue
+			}
+			ord := 0
+			for _, ia := range allInstrs(fn) {
+				call, ok := ia.In.(*ssa.Call)
+				if !ok || len(call.Call.Args) == 0 {
+					continue
+				}
+				sc := staticCallee(call)
+				if sc == nil || recvTypeName(origin(sc)) != "retryPrioQueue" || (sc.Name() != "Remove" && sc.Name() != "PopItem") {
+					continue
+				}
+				if _, ok := loadOfField(call.Call.Args[0], "retries", "revQueue"); !ok {
+					continue
+				}
+				n++
+				ord++
+				name := c.fnName(topLevel(fn))
+				r.checkP([]string{"C16"}, allowed[name], fmt.Sprintf("%s|removal from the by-revision heap#%d", c.fnName(fn), ord), c.posStr(instrPos(call)), "only Clear (and LowWatermark for stale entries) take items out of the heap the low watermark is read from", "an item is taken out of the by-revision heap outside Clear/LowWatermark: between Pop and the re-add in commitStatus the failed object is in neither heap, and the round's retry low watermark - read in between - is 0 (or the next-oldest failure) although the object still awaits retry")
+			}
+		}
+		if n < 2 {
+			r.undecidedP([]string{"C16"}, "reconciler.(retries)|removals from the by-revision heap", "", fmt.Sprintf("expected at least 2 removal sites (Clear, LowWatermark), found %d", n))
+		}
+	}
 	// the configuration is rejected when the maximum backoff is below the minimum: Duration() caps at
 	// the maximum, so every retry would come sooner than the configured minimum
 	if v := c.fnByName("reconciler.(config).validate"); v != nil {
